@@ -399,6 +399,9 @@ func blockedInLibrary(dump string) bool {
 }
 
 func compareWithReference(sc *sims.Scenario, out *sims.Outcome) string {
+	if out.Stuck {
+		return "the call never returned"
+	}
 	if out.Panic != nil {
 		return "unexpected panic: " + out.Panic.Value
 	}
